@@ -77,6 +77,9 @@ SCENARIOS = {
         attr("child", TU("Child")),
         attr("n", TINT, "lit", I(0)),
     ])}},
+    "nested_prep": {"root": "P", "classes": {"Child": CHILD, "P": cls([
+        attr("child", TU("Child"), prep="plookup"),
+    ])}},
     "list_spec": {"root": "P", "classes": {"Child": CHILD, "P": cls([
         attr("kids", TL(TU("Child")), "factory", L(), item="kid"),
     ])}},
@@ -282,7 +285,7 @@ def item_pool(scn, T):
     if T == TSTR:
         return [S("a"), S("b"), S(""), I(1)], ["up", "zero"], [[]], [[]]
     if T == TU("Child"):
-        return [CH0, CH1, I(3), MISSING], ["bumpv", "zero", "none"], [[], kws(("v", I(2))), kws(("v", S("bad")))], [[], kws(("v", "inc")), kws(("v", "tostr"))]
+        return [CH0, CH1, I(3), MISSING], ["bumpv", "zero", "none", "shared"], [[], kws(("v", I(2))), kws(("v", S("bad")))], [[], kws(("v", "inc")), kws(("v", "tostr"))]
     if T == TU("KChild"):
         return [KC("a"), KC("b", 1), KC("a", 2), S("c"), I(3), MISSING], ["bumpv", "none"], [[], kws(("v", I(2))), kws(("v", S("bad")))], [[], kws(("v", "inc"))]
     raise ValueError(T)
@@ -302,7 +305,9 @@ def pools_for(scn, root):
             if sub == "Child":
                 p["vp"] = [CH0, CH1, D((S("v"), I(1))), D((S("v"), S("bad"))), D((S("zz"), I(1))), I(3), MISSING]
                 p["kwp"] = [[], kws(("v", I(2))), kws(("v", S("bad"))), kws(("ws", L(I(1), I(2))), ("v", I(1)))]
-                p["fp"] = ["bumpv", "zero", "boom", "none"]
+                p["fp"] = ["bumpv", "zero", "boom", "none", "shared"]
+                if a["prep"] == "plookup":
+                    p["vp"] = p["vp"] + [S("s")]
                 p["kwfp"] = [[], kws(("v", "inc")), kws(("v", "tostr")), kws(("v", "boom"))]
             p["up"] = p["vp"]
         elif k in ("list", "klist", "set", "kset", "dict"):
